@@ -39,7 +39,10 @@ def main():
         "hooks": {"guard": "cargo feature verif-hooks",
                   "enable": "the harness crate depends on discv5 = { path = \"/repo\", features = [\"verif-hooks\"] }; hooks live in src/verif/, src/*/verif_hooks.rs and cfg-guarded impl blocks",
                   "baseline_off_cmd": "cd /repo && cargo test --workspace --no-fail-fast --offline",
-                  "source_commits": hook_commits, "add_only": True},
+                  "source_commits": hook_commits,
+                  # one exception to add-only (DESIGN.md section 9): the `use` of Instant in
+                  # src/lru_time_cache.rs is switched by the feature (guard off: std::time::Instant as before)
+                  "add_only": False},
         "engines": [
             {"name": "coq-model", "path": "/verif/coq", "serves_properties": claimed, "kind_free_text": "Coq 8.16.1 development: executable Gallina models (Model/), proofs (Proofs/), per-property statement files (Properties/), model runners for the correspondence (Run/)"},
             {"name": "harness", "path": "/verif/harness", "serves_properties": claimed, "kind_free_text": "Rust crate driving the real implementation through the verif-hooks feature; writes Coq case files (evaluated by coqc with vm_compute) and runs direct property monitors"}],
